@@ -146,3 +146,34 @@ for t, r in (("f64", "q<-342 / q>308"), ("f32", "q<-65 / q>38")):
     K("c11_lemire_truncated_" + t, "lemire", C11L + ["C06"],
       "lemire::<%s>(num) for all Number (many_digits => mantissa < 10^19), compute_float/compute_error uninterpreted: untruncated or declined first pass == compute_float(q,w); truncated definite => compute_float(q,w) == compute_float(q,w+1) == result; they differ => compute_error(q,w) (declined, normalised); w+1 cannot overflow" % t,
       LEM, features=LEM_CFG, zflags=("stubbing",), timeout=600)
+
+# --------------------------------------------------------------------------- P-FAST (number.rs) and compiled powers
+PFAST = ["number::Number::is_fast_path", "number::Number::try_fast_path", "num::Float::pow_fast_path", "num::int_pow_fast_path"]
+for t, rng in (("f64", "m<=2^53, -22<=e<=37"), ("f32", "m<=2^24, -10<=e<=17")):
+    K("pfast_try_fast_path_" + t, "number", ["C01" if t == "f64" else "C02", "C08", "C09", "C10", "C05", "C04"],
+      "try_fast_path (generic code instantiated with an abstract Float that records operations; constants and power look-up are the real %s ones), ALL Numbers: Some iff (!many_digits, %s, and for e>emax m*10^(e-emax) <= 2^(ms+1)); the result is exactly one IEEE op: from_u64(m)/10^-e, from_u64(m)*10^e, or from_u64(m*10^(e-emax))*10^emax; table index <= emax" % (t, rng),
+      PFAST, features=ALL_CFG)
+    K("pfast_native_" + t, "number", ["C01" if t == "f64" else "C02", "C04", "C07", "C08"],
+      "try_fast_path::<%s> ALL Numbers: no panic/OOB; Some(x) => x finite, non-negative, not NaN; zero significand => +0.0" % t,
+      PFAST, features=["default", "alloc"], timeout=900)
+K("c14_float_pow10_f64", "num", ["C14", "C01", "C05"], "f64::pow_fast_path(k) decoded from its bits == 10^k exactly, k in 0..=22", ["num::Float::pow_fast_path (f64)", "table_small::SMALL_F64_POW10"], features=["default", "alloc"])
+K("c14_float_pow10_f32", "num", ["C14", "C02", "C05"], "f32::pow_fast_path(k) decoded from its bits == 10^k exactly, k in 0..=10", ["num::Float::pow_fast_path (f32)", "table_small::SMALL_F32_POW10"], features=["default", "alloc"])
+K("c14_int_pow_fast_path", "num", ["C14", "C12", "C01", "C02", "C05"], "int_pow_fast_path(k, 5) == 5^k for k<=27 and (k, 10) == 10^k for k<=19 (table look-up or u64::pow)", ["num::int_pow_fast_path", "table_small::SMALL_INT_POW5", "table_small::SMALL_INT_POW10"], features=ALL_CFG)
+
+PROPERTY_META["PFAST"] = dict(level="proof", claim="dev", note="dev")
+
+# --------------------------------------------------------------------------- C13 (StackVec)
+NOALLOC = ["default", "compact"]
+SV = "stackvec::StackVec::"
+C13P = ["C13", "C08", "C12", "C04"]
+K("c13_new_len_capacity", "stackvec", C13P, "new()/len()/is_empty()/capacity()/deref length on every wf vector; capacity is 62 limbs of 64 bits", [SV + "new", SV + "len", SV + "is_empty", SV + "capacity", SV + "deref"], strength="capacity", bound="full capacity 62, symbolic length and limbs", features=NOALLOC)
+K("c13_deref_view", "stackvec", C13P, "deref / deref_mut expose exactly data[..len]; a write through deref_mut changes exactly that element", [SV + "deref", SV + "deref_mut"], strength="capacity", bound="full capacity 62", features=NOALLOC)
+K("c13_try_push", "stackvec", C13P, "try_push on every wf vector: len<62 => Some, appended, prefix unchanged; len==62 => None, contents unchanged", [SV + "try_push", SV + "push_unchecked"], strength="capacity", bound="full capacity 62", features=NOALLOC)
+K("c13_pop", "stackvec", C13P, "pop on every wf vector: returns last element, prefix unchanged; None on empty", [SV + "pop", SV + "pop_unchecked"], strength="capacity", bound="full capacity 62", features=NOALLOC)
+K("c13_try_extend_small", "stackvec", C13P, "try_extend at every pre-length 0..=62 with a slice of 0..=4 symbolic limbs: appended in order, prefix unchanged; sum > 62 => None, unchanged", [SV + "try_extend", SV + "extend_unchecked", SV + "set_len"], strength="bounded", bound="slice length <= 4 (pre-length unbounded up to capacity)", features=NOALLOC)
+K("c13_try_from_small", "stackvec", C13P, "try_from(slice) for slices of 0..=4 limbs is the copy of the slice", [SV + "try_from"], strength="bounded", bound="slice length <= 4", features=NOALLOC)
+K("c13_try_resize_small", "stackvec", C13P, "try_resize at every pre-length to any length: > 62 => None unchanged; shrink => prefix; grow (<= 4 new elements in this harness) => prefix + fill", [SV + "try_resize", SV + "resize_unchecked", SV + "truncate_unchecked"], strength="bounded", bound="growth <= 4 elements per call (any pre-length, any shrink)", features=NOALLOC)
+K("c13_normalize", "stackvec", C13P, "normalize / is_normalized on every wf vector (any length up to 62, at most 4 trailing zero limbs): strips exactly the trailing zero limbs", [SV + "normalize", SV + "is_normalized", "bigint::normalize", "bigint::is_normalized"], strength="bounded", bound="<= 4 trailing zero limbs per call, any length up to capacity", features=NOALLOC)
+K("c13_from_u64", "stackvec", C13P, "from_u64(x): empty for 0, single limb otherwise", [SV + "from_u64", "bigint::from_u64"], features=NOALLOC)
+K("c13_eq_cmp_short", "stackvec", C13P, "eq == sequence equality; cmp == length-first then most-significant-limb-first; for normalised vectors == numeric order", [SV + "eq", SV + "cmp", SV + "partial_cmp", "bigint::compare"], strength="bounded", bound="vectors of <= 3 limbs", features=NOALLOC)
+K("c13_cmp_bounded8", "stackvec", C13P, "compare on wf vectors up to 8 limbs (symbolic lengths): different lengths by length; equal lengths by the most significant differing limb", ["bigint::compare"], strength="bounded", bound="vectors of <= 8 limbs", features=NOALLOC, timeout=600)
